@@ -628,4 +628,48 @@ theorem cardRest_print (fuel : Nat) (s : PState) (C : Option Expr → List Expr 
   rw [wp_bind, wp_of_run_ok h3, wp_bind, wp_of_run_ok h4, wp_pure]
   exact ⟨rfl, st4⟩
 
+/-! ## FROM with qualified measurements -/
+
+/-- ` FROM <measurements>` when there are sources. -/
+def fromQualsText : List (Str × Str × Str) → Str
+  | [] => []
+  | q :: qs => fromQualText q qs
+
+theorem kwText_fromQuals (qs : List (Str × Str × Str)) : KwText (fromQualsText qs) .FROM := by
+  cases qs with
+  | nil => exact Or.inl rfl
+  | cons q qs => exact kwText_fromQual q qs
+
+theorem clauseFrom_quals (qs : List (Str × Str × Str)) : clauseFrom (qs.map qualSrc) = fromQualsText qs := by
+  cases qs with
+  | nil => rfl
+  | cons q qs =>
+    have e1 : tx " FROM " = ' ' :: (Token.FROM.str ++ [' ']) := by decide +kernel
+    show tx " FROM " ++ printSources ((q :: qs).map qualSrc) = _
+    rw [printSources_quals q qs, e1]
+    simp [fromQualsText, fromQualText]
+
+/-- The optional `FROM <sources>` clause on its printed form, sources `db.rp.m` / `db..m` / `rp.m` / `m`. -/
+theorem parseOptFrom_quals (s : PState) (qs : List (Str × Str × Str)) (k : Str) (hq : ∀ m ∈ qs, QualOK m)
+    (hk : Follow k [.FROM, .COMMA]) (hs : RT.Stand s (fromQualsText qs ++ k)) :
+    ∃ s', parseOptFrom.run s = .ok (qs.map qualSrc, s') ∧ RT.Stand s' k := by
+  cases qs with
+  | nil =>
+    obtain ⟨T, hT, hne⟩ := hk.starts (t := .FROM) (by simp)
+    obtain ⟨s1, h1, b1⟩ := optTok_absent_stand .FROM s k T (by simpa [fromQualsText] using hs) hT hne
+    refine ⟨s1, ?_, b1⟩
+    unfold parseOptFrom
+    rw [P.run_bind _ _ s false s1 h1]
+    rfl
+  | cons q qs =>
+    have hs' : RT.Stand s ([' '] ++ (Token.FROM.str ++ (' ' :: ((qualM q).print ++ (moreQuals qs ++ k))))) := by
+      simpa [fromQualsText, fromQualText] using hs
+    obtain ⟨s1, h1, b1⟩ := optTok_stand s [' '] Token.FROM.str _ .FROM [] Gap.blank hs'
+      (scansAs_kw .FROM _ (by decide +kernel) (WordEnd.blank _))
+    obtain ⟨s2, h2, b2⟩ := parseSourcesWith_quals none s1 q qs k hq (hk.mono (by simp)) b1
+    refine ⟨s2, ?_, b2⟩
+    unfold parseOptFrom
+    rw [P.run_bind _ _ s true s1 h1]
+    exact h2
+
 end InfluxQL
